@@ -159,44 +159,47 @@ theorem checks_of_any (dims : List (Int × Int × Int))
   have := h d hd
   omega
 
+/-- the shape of what create_subarray returns: the last call is create_resized(·, 0, Π sizes · extent) of a type
+    with Π subsizes elements; the arguments passed the checks -/
+theorem mkSubarray_out (dims : List (Int × Int × Int)) (c : Bool) (o r : Obj) (hr : mkSubarray dims c o = some r) :
+    (∀ d ∈ dims, 0 < d.1 ∧ 0 ≤ d.2.1 ∧ 0 ≤ d.2.2) ∧ ∃ hh, r = mkResized hh 0 (prodF (dims.map (·.1)) * o.info.extent) ∧
+      hh.info.size = o.info.size * prodF (dims.map (·.2.1)) := by
+  match dims, hr with
+  | [], hr => simp [mkSubarray] at hr
+  | [(sz, sub, start)], hr =>
+    simp only [mkSubarray] at hr
+    split at hr
+    · cases hr
+    · rename_i hany
+      split at hr
+      · cases hr
+      · split at hr
+        · cases hr
+        · rename_i hh hhe
+          injection hr with hr
+          obtain ⟨h1, _, _⟩ := mkHindexed_size _ _ _ hhe
+          refine ⟨checks_of_any _ hany, hh, ?_, ?_⟩
+          · rw [← hr]; simp only [List.map_cons, List.map_nil, prodF_cons, prodF_nil]; congr 1; ring
+          · simp only [List.map_cons, List.map_nil, prodF_cons, prodF_nil, List.sum_cons, List.sum_nil] at h1 ⊢
+            rw [h1]; ring
+  | d1 :: d2 :: rest, hr =>
+    rw [mkSubarray_ge2] at hr
+    split at hr
+    · cases hr
+    · rename_i hany
+      split at hr
+      · cases hr
+      · split at hr
+        · cases hr
+        · obtain ⟨hh, e1, e2⟩ := subCore_out _ _ _ hr
+          refine ⟨checks_of_any _ hany, hh, ?_, ?_⟩
+          · rw [e1]; cases c <;> simp only [if_true, Bool.false_eq_true, if_false, List.map_reverse, prodF_reverse]
+          · rw [e2]; cases c <;> simp only [if_true, Bool.false_eq_true, if_false, List.map_reverse, prodF_reverse]
+
 /-- `MPI_Type_create_subarray` (ndims ≥ 1, C or Fortran order) -/
 theorem mkSubarray_rel (dims : List (Int × Int × Int)) (c : Bool) (o r : Obj) (l : Layout) (h : Rel1 o l)
     (hr : mkSubarray dims c o = some r) : Rel1 r (subL dims c l) := by
-  -- the shape of the result: the last call is create_resized(·, 0, Π sizes · extent)
-  have key : (∀ d ∈ dims, 0 < d.1 ∧ 0 ≤ d.2.1 ∧ 0 ≤ d.2.2) ∧ ∃ hh, r = mkResized hh 0 (prodF (dims.map (·.1)) * o.info.extent) ∧
-      hh.info.size = o.info.size * prodF (dims.map (·.2.1)) := by
-    match dims, hr with
-    | [], hr => simp [mkSubarray] at hr
-    | [(sz, sub, start)], hr =>
-      simp only [mkSubarray] at hr
-      split at hr
-      · cases hr
-      · rename_i hany
-        split at hr
-        · cases hr
-        · split at hr
-          · cases hr
-          · rename_i hh hhe
-            injection hr with hr
-            obtain ⟨h1, _, _⟩ := mkHindexed_size _ _ _ hhe
-            refine ⟨checks_of_any _ hany, hh, ?_, ?_⟩
-            · rw [← hr]; simp only [List.map_cons, List.map_nil, prodF_cons, prodF_nil]; congr 1; ring
-            · simp only [List.map_cons, List.map_nil, prodF_cons, prodF_nil, List.sum_cons, List.sum_nil] at h1 ⊢
-              rw [h1]; ring
-    | d1 :: d2 :: rest, hr =>
-      rw [mkSubarray_ge2] at hr
-      split at hr
-      · cases hr
-      · rename_i hany
-        split at hr
-        · cases hr
-        · split at hr
-          · cases hr
-          · obtain ⟨hh, e1, e2⟩ := subCore_out _ _ _ hr
-            refine ⟨checks_of_any _ hany, hh, ?_, ?_⟩
-            · rw [e1]; cases c <;> simp only [if_true, Bool.false_eq_true, if_false, List.map_reverse, prodF_reverse]
-            · rw [e2]; cases c <;> simp only [if_true, Bool.false_eq_true, if_false, List.map_reverse, prodF_reverse]
-  obtain ⟨hchk, hh, e1, e2⟩ := key
+  obtain ⟨hchk, hh, e1, e2⟩ := mkSubarray_out dims c o r hr
   have hsub : ∀ d ∈ dims, 0 ≤ d.2.1 := fun d hd => (hchk d hd).2.1
   have hP : 0 ≤ prodF (dims.map (·.1)) := prodF_nonneg _ (by
     intro x hx
